@@ -18,7 +18,7 @@ PROPS['C17'] = dict(
         thorough=[dict(unit='c17_d', cases=10000, workers=8), dict(unit='c17_f', cases=10000, workers=4), dict(unit='c17_l', cases=10000, workers=4)],
     ),
     min=dict(quick=dict(cases=10000, nontrivial=2500, classes={'outcome/Success': 4000, 'Success_after_2+_iterations': 2500, 'eigenvalue_identity_asserted': 2500, 'B/bidiagonal_LLt': 300,
-                                                            'preconditioner/jacobi': 300, 'constraints': 200, 'outcome/exception': 100, 'second_compute': 300}),
+                                                            'preconditioner/jacobi': 300, 'constraints': 200, 'second_compute': 300}),
              thorough=dict(cases=150000, nontrivial=40000)),
     rule='case = (scalar, n, k, constraints m / rotated / skip-lowest, spectrum class, basis kind, B kind and kappa decades, content seed, position of the lowest eigenvalue, scales of A and B, preconditioner, start-block kind, '
          'tol exponent, maxit kind, optional second compute with its own tol / maxit). Non-trivial = Success reached after at least two Rayleigh-Ritz iterations (or Success only on the second compute); distinct = 64-bit hash of the draw log.',
